@@ -314,6 +314,9 @@ impl OsIpcOneShotServer {
             .clone();
         record.accept();
         ONE_SHOT_SERVERS.lock().unwrap().remove(&self.name).unwrap();
+        // The registry's copy of the sender must not keep the channel alive: if the
+        // client went away without sending, `recv` has to report that, not wait forever.
+        drop(record);
         let (data, channels, shmems) = self.receiver.recv()?;
         Ok((self.receiver, data, channels, shmems))
     }
